@@ -69,6 +69,7 @@ Section Proofs.
   Variable step : actor -> S -> M -> S.
   Variable fwd : actor -> M -> list (actor * M).
   Variable decodable : payload -> bool.
+  Variable handler_ok : payload -> bool.
 
   Notation req := (req payload).
   Notation world := (@world M S).
@@ -429,20 +430,21 @@ Section Proofs.
   Qed.
 
   (** * last_applied bookkeeping *)
-  Notation leader_applied := (leader_applied payload M build decodable).
+  Notation leader_applied := (leader_applied payload M build decodable handler_ok).
   Notation follower_applied := (follower_applied payload M build decodable).
   Notation batch_ok := (batch_ok payload M build decodable).
 
   Definition last_index (es : list (N * req)) (d : N) : N := fold_left (fun _ e => fst e) es d.
 
   Lemma leader_applied_ok es : forall am,
-    Forall (fun e => sends leader_table (snd e)) es ->
+    Forall (fun e => sends leader_table (snd e) /\ handler_ok (q_payload (snd e)) = true) es ->
     am_last (leader_applied es am) = last_index es (am_last am) /\
     (es <> [] -> last (am_saved (leader_applied es am)) 0%N = last_index es (am_last am)).
   Proof.
     induction es as [| [i r] es IH]; intros am SD; simpl.
     - split; [reflexivity | congruence].
-    - inversion SD as [| ? ? SDr SDs]; subst. destruct SDr as [a [m [md D]]]. simpl in D. rewrite D.
+    - inversion SD as [| ? ? SDr SDs]; subst. destruct SDr as [[a [m [md D]]] HO]. simpl in D, HO. rewrite D, HO.
+      replace (match md with MAwaitErr => true | _ => true end) with true by (destruct md; reflexivity).
       destruct (IH (mkAm i (am_saved am ++ [i])) SDs) as [L1 L2]. simpl in L1.
       unfold last_index in *. simpl. split; [assumption |]. intros _.
       destruct es as [| e es']; [simpl; apply last_last | apply L2; discriminate].
@@ -477,17 +479,20 @@ Section Proofs.
   Theorem last_applied_tracks :
     forall (entries : list (N * req)) (batching : list nat) (am : apply_mgr),
       entries <> [] -> forallb prep_ok (map snd entries) = true ->
+      forallb (fun r => handler_ok (q_payload r)) (map snd entries) = true ->
       let idx := last_index entries (am_last am) in
       let al := leader_applied entries am in
       let af := follower_applied (split batching entries) am in
       am_last al = idx /\ last (am_saved al) 0%N = idx /\
       am_last af = idx /\ last (am_saved af) 0%N = idx.
   Proof.
-    intros entries batching am NE OK idx al af.
-    assert (SDl : Forall (fun e => sends leader_table (snd e)) entries).
-    { apply Forall_forall. intros e He. apply dispatch_sends;
-        [apply (table_total_l follower_table), leader_follower_agree | apply leader_well_prepped |].
-      rewrite forallb_forall in OK. apply OK. now apply in_map. }
+    intros entries batching am NE OK HOK idx al af.
+    assert (SDl : Forall (fun e => sends leader_table (snd e) /\ handler_ok (q_payload (snd e)) = true) entries).
+    { apply Forall_forall. intros e He. split.
+      - apply dispatch_sends;
+          [apply (table_total_l follower_table), leader_follower_agree | apply leader_well_prepped |].
+        rewrite forallb_forall in OK. apply OK. now apply in_map.
+      - rewrite forallb_forall in HOK. apply (HOK (snd e)). now apply in_map. }
     assert (SDf : Forall (fun e => sends follower_table (snd e)) entries).
     { apply Forall_forall. intros e He. apply dispatch_sends;
         [apply table_total, leader_follower_agree | apply well_prepped_transfer, leader_follower_agree |].
